@@ -227,6 +227,10 @@ func (w *world) request(op string, rnd *rand.Rand, at *attacker) (method, target
 }
 
 func main() {
+	if len(os.Args) > 5 && os.Args[1] == "-conc-child" {
+		concChildMain()
+		return
+	}
 	run = vf.Start("C01", "exploration")
 	r := run
 	r.SetRule("a history = up to 12 steps on one or two attacker connections over an alphabet of 8 protected requests (plaintext and under attacker-derivable keys), 11 handshake fragments / forgeries and interleaved operations of a legitimate controller; " +
@@ -317,6 +321,15 @@ func main() {
 	if r.ViolationCount() != v0 {
 		restore(dir, pristine)
 	}
+	// concurrent phase (this build, then a child built with the race detector)
+	v0 = r.ViolationCount()
+	r.Guard("concurrent", func() { mergeConcurrent(r, concurrentPhase(w, r.Seed, r.Pick(1500, 20000)), "plain") })
+	if r.ViolationCount() != v0 {
+		restore(dir, pristine)
+	}
+	r.Guard("concurrent race child", func() { concurrentRaceChild(r, r.Pick(600, 6000)) })
+	r.Floor("concurrent_attacker_requests_refused", int(r.Counter("concurrent_attacker_requests_refused")), r.Pick(6000, 80000))
+	r.Floor("concurrent_legit_requests_served", int(r.Counter("concurrent_legit_requests_served")), 1000)
 	r.Floor("collision_scenarios", int(r.Counter("collision_scenarios")), 8)
 	r.Floor("attacker_requests", int(r.Counter("attacker_requests")), 1000)
 	r.Floor("fences", int(r.Counter("fences_on_attacker_connections")), 100)
